@@ -59,6 +59,8 @@ mod pseudo_simd_64;
 mod x86_avx2;
 mod x86_sse2;
 mod x86_sse4_1;
+#[cfg(fast_tlsh_verif)]
+pub(crate) mod verif;
 
 mod fuzzer;
 
